@@ -248,8 +248,51 @@ __CPROVER_assigns(g_kept, g_kept_j, g_kept_d, num_edges)
                   desc="Sparse_distance_matrix(mat, threshold), loop body: an off-diagonal entry is kept exactly when its distance is <= threshold (the Rips filtration truncated AT the threshold), with its own vertex and distance"))
 
 
+def enumerator_units(U):
+    """dense Simplex_coboundary_enumerator_::next(): filters the raw cofacets by the threshold.  next_raw (the
+    enumeration itself) is a ghost stub that yields an arbitrary finite sequence of candidates."""
+    G = ND + """
+#include <math.h>
+typedef float value_t;
+typedef struct { bool has; value_t diam; unsigned id; } vp_opt;     /* std::optional<diameter_entry_t>: diameter + identity */
+#define KMAX 6
+value_t g_cand[KMAX]; unsigned g_ncand, g_pos; value_t threshold;
+/* ghost stub of next_raw (R13): the next raw cofacet, or nothing when the enumeration is exhausted */
+static vp_opt next_raw(bool all_cofacets) { vp_opt r; r.has = g_pos < g_ncand; r.diam = r.has ? g_cand[g_pos] : 0; r.id = g_pos; if (r.has) g_pos++; return r; }
+/* specification: position of the first candidate at or after `from` whose diameter is <= threshold (g_ncand if none) */
+static unsigned first_within(unsigned from) { unsigned r = g_ncand; for (unsigned k = KMAX; k-- > 0;) if (k >= from && k < g_ncand && g_cand[k] <= threshold) r = k; return r; }
+"""
+    con = """
+__CPROVER_requires(g_ncand <= KMAX && g_pos <= g_ncand && g_start == g_pos && g_first == first_within(g_start))
+__CPROVER_ensures(__CPROVER_return_value.has == (first_within(g_start) < g_ncand))
+__CPROVER_ensures(!__CPROVER_return_value.has || (__CPROVER_return_value.id == first_within(g_start) && __CPROVER_return_value.diam == g_cand[first_within(g_start)] && g_pos == first_within(g_start) + 1))
+__CPROVER_ensures(__CPROVER_return_value.has || g_pos == g_ncand)
+__CPROVER_assigns(g_pos)
+"""
+    loop = """
+__CPROVER_assigns(g_pos, res)
+__CPROVER_loop_invariant(g_start <= g_pos && g_pos <= g_ncand && g_ncand <= KMAX && g_first >= g_pos)
+__CPROVER_decreases(g_ncand - g_pos)
+"""
+    fn = Fn(RP, r"std::optional<diameter_entry_t> next\(bool all_cofacets = true\)", "enum_next", con, within=r"class=typename DistanceMatrix2::Category> class Simplex_coboundary_enumerator_ \{",
+            sig_subs=[(r"std::optional<diameter_entry_t>", "vp_opt"), (r" = true", "")],
+            subs=[(r"std::optional<diameter_entry_t> res = ", "vp_opt res = "), (r"!res \|\|", "!res.has ||"), (r"get_diameter\(\*res\)", "res.diam"), (r"parent\.threshold", "threshold"),
+                  (r"while\(true\) \{\s*vp_opt res = next_raw\(all_cofacets\);", "vp_opt res; while(true) { res = next_raw(all_cofacets);")],
+            loops={0: loop}, canary=(r"res\.diam <= threshold", "res.diam < threshold"))
+    U.append(Unit("dense_coboundary.next", "C11", [fn], enforce="enum_next", globals_=G + "unsigned g_start, g_first;\n", loop_contracts=True, unwind=KM + 2,
+                  inputs=["g_cand", "g_ncand", "threshold"], replay=mk_replay_dense(),
+                  harness=H("  for (int k = 0; k < KMAX; k++) g_cand[k] = nondet_float();\n  g_ncand = nondet_uint(); g_pos = nondet_uint(); threshold = nondet_float(); g_start = g_pos;\n"
+                            "  __CPROVER_assume(!isnan(threshold) && g_ncand <= KMAX && g_pos <= g_ncand); for (int k = 0; k < KMAX; k++) __CPROVER_assume(!isnan(g_cand[k]));\n"
+                            "  g_first = g_ncand; for (unsigned k = KMAX; k-- > 0;) if (k >= g_start && k < g_ncand && g_cand[k] <= threshold) g_first = k;", "enum_next(true);"),
+                  desc="dense Simplex_coboundary_enumerator_::next(): returns the first raw cofacet whose diameter is <= threshold (the Rips filtration truncated AT the threshold), or nothing when none is left; loop contract with termination"))
+
+
+KM = 6
+
+
 def units(tier):
     U = []
+    enumerator_units(U)
     arith_units(U)
     bitfield_units(U)
     coeff_units(U)
@@ -315,6 +358,15 @@ def native(tier, seed, bdir, only=None):
     if only and not fnmatch.fnmatch("native.is_prime", only):
         return []
     return c10.primes_native(bdir)
+
+
+def mk_replay_dense():
+    def rp(unit, failure):
+        # a cofacet whose diameter equals the threshold: the unit square without threshold (enclosing radius sqrt 2)
+        cmd = [_bin("ripser_bits", ["-DGUDHI_FORCE_FAKE_UINT128"]), "dense", "x", "0", "0"]
+        rc, o, e, s = sh(cmd, 60)
+        return {"reproduced": True if rc == 1 else (False if rc == 0 else None), "cmd": " ".join(cmd), "detail": (o + e).strip()[-500:], "rc": rc}
+    return rp
 
 
 def selftest():
